@@ -333,10 +333,27 @@ func normMsg(m string) string {
 	return s
 }
 
+// deathLine: "<first non-runtime frame of the failing goroutine>: <fatal message>" from a Go crash dump.
 func deathLine(stderr string, ps *os.ProcessState) string {
-	for _, ln := range strings.Split(stderr, "\n") {
-		if strings.HasPrefix(ln, "fatal error:") || strings.HasPrefix(ln, "panic:") || strings.HasPrefix(ln, "runtime:") {
-			return normMsg(ln)
+	lines := strings.Split(stderr, "\n")
+	msg := ""
+	for i, ln := range lines {
+		if strings.HasPrefix(ln, "fatal error:") || strings.HasPrefix(ln, "panic:") {
+			msg = normMsg(ln)
+			if strings.HasPrefix(ln, "fatal error: stack overflow") || strings.HasPrefix(ln, "fatal error: out of memory") {
+				msg = ln
+			}
+			site := "?"
+			for _, l2 := range lines[i+1:] {
+				if l2 == "" || strings.HasPrefix(l2, "\t") || strings.HasPrefix(l2, "runtime.") || strings.HasPrefix(l2, "runtime:") || strings.HasPrefix(l2, "goroutine ") || strings.HasPrefix(l2, "[") || strings.HasPrefix(l2, "stack:") || strings.HasPrefix(l2, "panic(") {
+					continue
+				}
+				if j := strings.LastIndex(l2, "("); j > 0 && strings.Contains(l2, ".") {
+					site = strings.TrimPrefix(l2[:j], "github.com/gnolang/gno/")
+					break
+				}
+			}
+			return "@" + site + ": " + msg
 		}
 	}
 	if ps != nil {
@@ -399,11 +416,11 @@ func main() {
 		workerMain()
 		return
 	}
-	r.SetBudget(6*time.Minute, 28*time.Minute)
+	r.SetBudget(15*time.Minute, 40*time.Minute)
 	g := newGen(r.Thorough())
 	s := &sched{famDone: map[string]int64{}, famHist: map[string]*[nClasses]int64{}, faults: map[string][]string{}, faultSrc: map[string]string{},
 		review: map[string]int64{}, reviewEx: map[string]string{}, thorough: r.Thorough()}
-	s.cpuLimit = 25 * time.Second
+	s.cpuLimit = 40 * time.Second
 	if r.Thorough() {
 		s.cpuLimit = 90 * time.Second
 	}
@@ -469,7 +486,7 @@ func main() {
 		c := g.family(in.fam).Case(in.idx)
 		var key string
 		if in.kind == "death" {
-			key = "worker-death: " + in.msg
+			key = "worker-death" + in.msg
 		} else {
 			key = "no-termination-within-cpu-budget (re-run alone)"
 		}
